@@ -10,7 +10,7 @@
 (*            and their mutual correlations),                               *)
 (*   nbar   : total mean photon number,  pur : purity,                      *)
 (*   mineig : smallest eigenvalue of V + i Omega (phase space) or of rho,   *)
-(*   trace, cls : "passive" | "active" (unitary) | "loss" | "prep" | "chan",*)
+(*   trace, cls : "passive" | "active" (unitary) | "loss" | "prep" | "chan" | "meas",*)
 (*   cross  : largest correlation between a prepared target and the rest,   *)
 (*   q      : the tolerance quantum of this case (from the truncation slack).*)
 (***************************************************************************)
@@ -20,8 +20,13 @@ VARIABLES tid, verdict
 AbsI(x) == IF x < 0 THEN -x ELSE x
 TargetsOnly(c)  == Len(c.before.spect) = Len(c.after.spect) /\ \A i \in DOMAIN c.before.spect : AbsI(c.after.spect[i] - c.before.spect[i]) <= c.q
 Physical(c)     == c.after.mineig >= -c.q /\ c.after.trace <= 1000000 + c.q /\ c.after.sym <= c.q
+\* a measurement ("meas") may change the other modes (conditional update) but leaves a normalised physical state with the measured
+\* modes uncorrelated with the rest
+Normalised(c)   == AbsI(c.after.trace - 1000000) <= c.q
 Verdict(c) ==
-   IF ~TargetsOnly(c) THEN "TargetsOnly"
+   IF c.cls = "meas" THEN (IF ~Physical(c) THEN "Physical" ELSE IF ~Normalised(c) THEN "ConditionalStateNormalised"
+                           ELSE IF c.after.cross > c.q THEN "PrepUncorrelated" ELSE "accepted")
+   ELSE IF ~TargetsOnly(c) THEN "TargetsOnly"
    ELSE IF ~Physical(c) THEN "Physical"
    ELSE IF c.cls = "passive" /\ AbsI(c.after.nbar - c.before.nbar) > c.q THEN "PassiveKeepsPhotons"
    ELSE IF c.cls \in {"passive", "active"} /\ AbsI(c.after.pur - c.before.pur) > c.q THEN "UnitaryKeepsPurity"
